@@ -901,6 +901,13 @@ def ag_echo_jobs(ck, bindir):
     # ... or spells the wrapper's own -r / -n / -x options, with and without digits behind them
     items = items + [('--print-grammar-file', ('FILE', 'grammar.out')), ('--print-grammar-file', ('FILE', 'grammar out.txt')),
                      ('--print-grammar-file', ('FILE', 'g-r1-n5-x3.out')), ('--print-grammar-file', ('FILE', 'grammar-run-new-x.out'))]
+    # an option of the program that the command accepts and documents ("test strings to be parsed ... default is to test on
+    # input") but never hands over: known finding option_accepted_and_ignored
+    j = Job('ag-echo', 'wordseg.algos.ag', ['-vv', '--nruns', '1', '-d', '100', '-n', '4', '-x', '2', '--test-file', '@no-such-file.txt', '@in.txt'],
+            {'in.txt': text}, None, env={'WORDSEG_VERIF_BINDIR': bindir}, tag='ag-echo --test-file')
+    j.check = ('--test-file', 'IGNORED', 'no-such-file.txt')
+    j.known_class = 'option_accepted_and_ignored'
+    jobs.append(j)
     for opt, (key, val) in items:
         argv = ['-vv', '--nruns', '1', '-d', '100', '-n', '4', '-x', '2']
         if key == 'FILE':
@@ -928,6 +935,12 @@ def ag_echo_jobs(ck, bindir):
 
 def judge_echo(job, res):
     opt, key, val = job.check
+    if key == 'IGNORED':
+        # the program is told "-u <tmp>/test.ylt" whatever --test-file says: a file that does not exist goes unnoticed
+        m = re.search(r'running "([^"]*)"', res['err'])
+        if res['code'] == 0 and m and val not in m.group(1):
+            return 'option %s %s is accepted but never reaches the program (its command line: %s)' % (opt, val, m.group(1)[-120:])
+        return None
     if res['code'] != 0:
         return 'wordseg-ag %s failed with status %d: %s' % (opt, res['code'], res['err'][-300:])
     if key == 'FILE':
@@ -1007,6 +1020,8 @@ def main():
         ck.count('io:' + ('stdin' if j.stdin else 'file') + '->' + ('stdout' if j.stdout else 'file'))
         if any(a in ('-p', '-s', '-w') for a in j.argv) and j.name in ('prep', 'stats', 'syll', 'dibs', 'baseline'):
             ck.count('separators on the command line')
+        if why and getattr(j, 'known_class', None) and ck.match_known('python -m ' + j.module, {j.known_class}):
+            why = None
         if why:
             bad.append((desc, j, r, why))
     # one witness for every kind of failing run
